@@ -51,10 +51,17 @@ for m in muts:
         env = dict(os.environ, VERIF_REPO=w, VT_OUT=out)
         for chk in m['checks']:
             t0 = time.time()
-            r = subprocess.run(['/venv/bin/python', '-m', 'vt.runner', chk,
-                                '--tier', a.tier, '--scale', a.scale],
-                               cwd='/verif', env=env, capture_output=True,
-                               text=True)
+            try:
+                r = subprocess.run(
+                    ['/venv/bin/python', '-m', 'vt.runner', chk,
+                     '--tier', a.tier, '--scale', a.scale],
+                    cwd='/verif', env=dict(env, VT_WATCHDOG_S='600'),
+                    capture_output=True, text=True, timeout=900)
+            except subprocess.TimeoutExpired:
+                rows.append((m['name'], f'{chk}:HANG', tests, '', 900))
+                print(rows[-1], flush=True)
+                subprocess.run(['pkill', '-f', f'vt.runner {chk} --tier'])
+                continue
             sigs = [l.strip()[11:] for l in r.stdout.splitlines()
                     if l.strip().startswith('signature:')]
             verdict = {0: 'MISSED', 1: 'caught'}.get(r.returncode,
@@ -70,7 +77,7 @@ for m in muts:
         shutil.rmtree(d, ignore_errors=True)
 if a.out:
     json.dump(rows, open(a.out, 'w'), indent=1)
-missed = [r for r in rows if 'MISSED' in r[1] or 'BAD' in r[1]]
+missed = [r for r in rows if 'MISSED' in r[1] or 'BAD' in r[1] or 'HANG' in r[1] or 'ERR' in r[1]]
 print(f'\n{len(rows)} runs, {len(missed)} missed/bad')
 for r in missed:
     print('  ', r)
